@@ -866,3 +866,203 @@ Proof.
   eexists. split; [rewrite B2; reflexivity|]. cbn [t_list t_off0 t_borrows t_off1].
   rewrite B2. cbn [fst snd]. repeat split; try reflexivity. exact L2.
 Qed.
+
+(* ---- liveness of the V2 borrow sweep ---- *)
+Definition bst (st : bstate) : list Z * Z := (bs_ids st, bs_off st).
+
+Definition bev_ok (x : Z) (st : bstate) (e : bevent) : Prop :=
+  match e with
+  | BBlock vf => vf x = VSeize
+  | BClose id => id <> x
+  | BCreate id => ~ In id (bs_ids st) /\ id <> x
+  end.
+
+Fixpoint brun_ok (b x : Z) (st : bstate) (evs : list bevent) : Prop :=
+  match evs with
+  | [] => True
+  | e :: r => bev_ok x st e /\ brun_ok b x (bev_step b st e) r
+  end.
+
+Lemma bev_step_inv b st e x : 0 < b -> st_inv (bst st) -> bev_ok x st e -> st_inv (bst (bev_step b st e)).
+Proof.
+  intros Hb (Hnd & Ho) Hok. destruct st as [ids off liq]. cbn [bst bs_ids bs_off fst snd] in *.
+  destruct e as [vf|id|id]; unfold st_inv; cbn [bev_step bst bs_ids bs_off bs_liq fst snd].
+  - rewrite bblock_ids_eq. cbn [fst snd]. split; [exact Hnd|].
+    pose proof (sweep_window_ok_lem (zlen ids) off b (zlen_nonneg ids)). lia.
+  - split; [apply nodup_filter; exact Hnd|exact Ho].
+  - split; [|exact Ho]. destruct Hok as (Hni & _). apply nodup_snoc; auto.
+Qed.
+
+(* x stays in the list: nobody but x's owner removes it *)
+Lemma bev_step_in b st e x : bev_ok x st e -> In x (bs_ids st) -> In x (bs_ids (bev_step b st e)).
+Proof.
+  intros Hok Hin. destruct st as [ids off liq]. destruct e as [vf|id|id]; cbn [bev_step bs_ids] in *.
+  - exact Hin.
+  - apply filter_In. split; [exact Hin|]. cbn in Hok. destruct (x =? id) eqn:E; [|reflexivity]. exfalso. apply Hok. lia.
+  - apply in_or_app. left; exact Hin.
+Qed.
+
+(* once liquidated, always liquidated *)
+Lemma bliq_mono_step b st e x : In x (bs_liq st) -> In x (bs_liq (bev_step b st e)).
+Proof. intro H. destruct e; cbn [bev_step bs_liq]; auto. apply in_or_app. left; exact H. Qed.
+
+Lemma bliq_mono b x : forall evs st, In x (bs_liq st) -> In x (bs_liq (fold_left (bev_step b) evs st)).
+Proof. induction evs as [|e r IH]; intros st H; [exact H|]. cbn [fold_left]. apply IH. apply bliq_mono_step. exact H. Qed.
+
+(* a block in which x is unsafe and inside the window liquidates x *)
+Lemma bblock_seizes b st vf x : In x (bs_ids st) -> vf x = VSeize ->
+  fst (sweep_window (zlen (bs_ids st)) (bs_off st) b) <= idx x (bs_ids st) < snd (sweep_window (zlen (bs_ids st)) (bs_off st) b) ->
+  In x (bs_liq (bev_step b st (BBlock vf))).
+Proof.
+  intros Hx Hv Hr. destruct st as [ids off liq]. cbn [bev_step bs_ids bs_off bs_liq] in *.
+  rewrite bblock_ids_eq. cbn [fst].
+  destruct (mem_z x liq) eqn:Em.
+  - apply in_or_app. left. apply mem_z_in. exact Em.
+  - apply in_or_app. right. apply filter_In. split; [apply in_window_of; assumption|].
+    unfold bseizes. rewrite Em, Hv. reflexivity.
+Qed.
+
+(* the step lemma: the potential pays for every block x survives unliquidated *)
+Lemma bpot_step b st e x c : 0 < b -> st_inv (bst st) -> bev_ok x st e -> is_bcreate e <= c ->
+  In x (bs_ids st) -> ~ In x (bs_liq (bev_step b st e)) ->
+  pot b x (bst (bev_step b st e)) (c - is_bcreate e) + is_bblock e <= pot b x (bst st) c.
+Proof.
+  intros Hb Hinv Hok Hc Hx Hnl.
+  pose proof (bev_step_in b st e x Hok Hx) as Hx'.
+  destruct e as [vf|id|id]; cbn [is_bcreate is_bblock] in *.
+  - (* a block: the list is unchanged, x was outside the window *)
+    assert (Hnw : ~ (fst (sweep_window (zlen (bs_ids st)) (bs_off st) b) <= idx x (bs_ids st)
+                     < snd (sweep_window (zlen (bs_ids st)) (bs_off st) b))).
+    { intro Hr. apply Hnl. apply bblock_seizes; assumption. }
+    destruct Hinv as (_ & Ho). destruct st as [ids off liq]. unfold bst in *. cbn [bs_ids bs_off bs_liq fst snd bev_step] in *.
+    rewrite bblock_ids_eq. cbn [fst snd]. replace (c - 0) with c by lia.
+    unfold pot, bst. cbn [fst snd bs_ids bs_off].
+    pose proof (pot_T_quiet (zlen ids) (idx x ids) off b Hb (idx_bounds x ids Hx) Ho Hnw). lia.
+  - (* repayment / deletion of another borrow: the vault schedule's close *)
+    pose proof (pot_step b (bst st) (EClose id) x c Hb Hinv Hok Hc) as H.
+    destruct st as [ids off liq]. unfold bst in *. cbn [bs_ids bs_off bev_step ev_step fst snd is_create is_block] in *.
+    apply H. exact Hx'.
+  - (* a new borrow: appended *)
+    pose proof (pot_step b (bst st) (ECreate id) x c Hb Hinv Hok Hc) as H.
+    destruct st as [ids off liq]. unfold bst in *. cbn [bs_ids bs_off bev_step ev_step fst snd is_create is_block] in *.
+    apply H. exact Hx'.
+Qed.
+
+Lemma n_bblocks_cons e r : n_bblocks (e :: r) = is_bblock e + n_bblocks r.
+Proof. reflexivity. Qed.
+Lemma n_bcreates_cons e r : n_bcreates (e :: r) = is_bcreate e + n_bcreates r.
+Proof. reflexivity. Qed.
+Lemma is_bcreate_nonneg e : 0 <= is_bcreate e. Proof. destruct e; cbn; lia. Qed.
+Lemma n_bcreates_nonneg evs : 0 <= n_bcreates evs.
+Proof. induction evs as [|e r IH]; [cbn; lia|]. rewrite n_bcreates_cons. pose proof (is_bcreate_nonneg e). lia. Qed.
+
+(* main induction: while x is not liquidated, the number of blocks run is at most the potential *)
+Lemma blive_main b x : 0 < b -> forall evs st c,
+  st_inv (bst st) -> In x (bs_ids st) -> brun_ok b x st evs -> n_bcreates evs <= c ->
+  ~ In x (bs_liq (fold_left (bev_step b) evs st)) ->
+  n_bblocks evs <= pot b x (bst st) c.
+Proof.
+  intros Hb. induction evs as [|e r IH]; intros st c Hinv Hx Hok Hc Hnl.
+  - replace (n_bblocks []) with 0 by reflexivity. replace (n_bcreates []) with 0 in Hc by reflexivity.
+    destruct Hinv as (_ & Ho). apply pot_nonneg; auto.
+  - cbn [fold_left] in Hnl. destruct Hok as (Hok1 & Hok2). rewrite n_bcreates_cons in Hc.
+    pose proof (is_bcreate_nonneg e). pose proof (n_bcreates_nonneg r).
+    pose proof (IH (bev_step b st e) (c - is_bcreate e) (bev_step_inv b st e x Hb Hinv Hok1)
+                   (bev_step_in b st e x Hok1 Hx) Hok2 ltac:(lia) Hnl) as Hle.
+    assert (Hnl1 : ~ In x (bs_liq (bev_step b st e))).
+    { intro H1. apply Hnl. apply bliq_mono. exact H1. }
+    pose proof (bpot_step b st e x c Hb Hinv Hok1 ltac:(lia) Hx Hnl1). rewrite n_bblocks_cons. lia.
+Qed.
+
+(* V2 borrow liveness, interleaved: repayments / deletions of OTHER borrows and new borrows between
+   the blocks, ANY verdict (error and panic included) for every other borrow in every block; x above
+   its threshold and liquidatable in every block.  After live_bound blocks x is liquidated. *)
+Theorem blive_interleaved : forall b x ids off liq evs c,
+  1 <= b -> 0 <= off -> NoDup ids -> In x ids ->
+  brun_ok b x (mkB ids off liq) evs -> n_bcreates evs <= c ->
+  live_bound (zlen ids + c) c b <= n_bblocks evs ->
+  In x (bs_liq (fold_left (bev_step b) evs (mkB ids off liq))).
+Proof.
+  intros b x ids off liq evs c Hb Ho Hnd Hx Hok Hc Hn.
+  destruct (in_dec Z.eq_dec x (bs_liq (fold_left (bev_step b) evs (mkB ids off liq)))) as [H|H]; [exact H|exfalso].
+  pose proof (blive_main b x ltac:(lia) evs (mkB ids off liq) c (conj Hnd Ho) Hx Hok Hc H) as Hle.
+  pose proof (n_bcreates_nonneg evs).
+  pose proof (pot_le_bound b x ids off c ltac:(lia) ltac:(lia) Hx Ho). unfold bst in Hle. cbn [bs_ids bs_off] in Hle. lia.
+Qed.
+
+(* quiet case: only blocks.  The list does not shrink under seizures (a liquidated borrow stays
+   in it), so every block that misses x brings the window one batch closer: (n-1)/b + 2 blocks,
+   which is within the property's "two full sweeps" = 2*ceil(n/b) *)
+Definition bblocks_of (vfs : list (Z -> verdict)) : list bevent := map BBlock vfs.
+
+Lemma blive_quiet_main b x : 0 < b -> forall vfs st,
+  0 <= bs_off st -> In x (bs_ids st) -> Forall (fun vf => vf x = VSeize) vfs ->
+  ~ In x (bs_liq (fold_left (bev_step b) (bblocks_of vfs) st)) ->
+  zlen vfs <= pot_T (zlen (bs_ids st)) (idx x (bs_ids st)) (bs_off st) b.
+Proof.
+  intros Hb. induction vfs as [|vf r IH]; intros st Ho Hx Hall Hnl.
+  - pose proof (pot_T_bounds _ _ (bs_off st) b Hb (idx_bounds x _ Hx) Ho). unfold zlen at 1. cbn [length]. lia.
+  - inversion Hall as [|? ? Hv Hr]; subst. unfold bblocks_of in Hnl. cbn [map fold_left] in Hnl. fold (bblocks_of r) in Hnl.
+    assert (Hnl1 : ~ In x (bs_liq (bev_step b st (BBlock vf)))).
+    { intro H1. apply Hnl. apply bliq_mono. exact H1. }
+    assert (Hnw : ~ (fst (sweep_window (zlen (bs_ids st)) (bs_off st) b) <= idx x (bs_ids st)
+                     < snd (sweep_window (zlen (bs_ids st)) (bs_off st) b))).
+    { intro Hrg. apply Hnl1. apply bblock_seizes; assumption. }
+    pose proof (pot_T_quiet _ _ (bs_off st) b Hb (idx_bounds x _ Hx) Ho Hnw) as Hq.
+    pose proof (sweep_window_ok_lem (zlen (bs_ids st)) (bs_off st) b (zlen_nonneg _)) as Hw.
+    specialize (IH (bev_step b st (BBlock vf))).
+    destruct st as [ids off liq]. cbn [bev_step bs_ids bs_off bs_liq] in *.
+    rewrite bblock_ids_eq in *. cbn [fst snd] in *.
+    specialize (IH ltac:(lia) Hx Hr Hnl). rewrite zlen_cons. lia.
+Qed.
+
+Theorem blive_quiet : forall b x ids off liq vfs,
+  1 <= b -> 0 <= off -> In x ids ->
+  Forall (fun vf => vf x = VSeize) vfs ->
+  live_R (zlen ids) b <= zlen vfs ->
+  In x (bs_liq (fold_left (bev_step b) (bblocks_of vfs) (mkB ids off liq))).
+Proof.
+  intros b x ids off liq vfs Hb Ho Hx Hall Hn.
+  destruct (in_dec Z.eq_dec x (bs_liq (fold_left (bev_step b) (bblocks_of vfs) (mkB ids off liq)))) as [H|H]; [exact H|exfalso].
+  pose proof (blive_quiet_main b x ltac:(lia) vfs (mkB ids off liq) Ho Hx Hall H) as Hle. cbn [bs_ids bs_off] in Hle.
+  pose proof (pot_T_bounds (zlen ids) (idx x ids) off b ltac:(lia) (idx_bounds x ids Hx) Ho). lia.
+Qed.
+
+Lemma live_R_le_two_sweeps n b : 1 <= n -> 1 <= b -> live_R n b <= two_sweeps n b.
+Proof.
+  intros Hn Hb. unfold live_R, two_sweeps.
+  replace (n + b - 1) with (n - 1 + 1 * b) by lia. rewrite Z.div_add by lia.
+  pose proof (Z.div_pos (n - 1) b). lia.
+Qed.
+
+(* ---- regression witnesses of the repaired findings ---- *)
+(* C09-F2: 2 vaults, batch 1, the second unsafe, no borrows: the hook used to be a fixed point
+   (the borrow sweep reset the vault offset every block); now the offset advances and the second
+   block seizes vault 2 *)
+Definition v2_starved : v2_state := mkV2 [mkPos 1 0 VKeep; mkPos 2 0 VSeize] 2 0 [] 0.
+
+Lemma v2_starved_served :
+  run_v2 (fun n => n) 1 2 v2_starved = Ok (mkV2 [mkPos 1 0 VKeep] 1 2 [] 0).
+Proof. vm_compute. reflexivity. Qed.
+
+(* C09-F3: an erroring (or panicking) borrow in front of an unsafe one, batch 5: the loop used to
+   return at borrow 1 in every block; now borrow 2 is liquidated in the first block *)
+Definition v2_borrow_starved : v2_state := mkV2 [] 0 0 [mkPos 1 0 VErr; mkPos 2 0 VSeize] 0.
+
+Lemma v2_borrow_starved_served :
+  sweep_v2 (fun n => n) 5 v2_borrow_starved =
+    Ok ([], [2], mkV2 [] 0 0 [mkPos 1 0 VErr; mkPos 2 0 VKeep] 2) /\
+  sweep_v2 (fun n => n) 5 (mkV2 [] 0 0 [mkPos 1 0 VPanic; mkPos 2 0 VSeize] 0) =
+    Ok ([], [2], mkV2 [] 0 0 [mkPos 1 0 VPanic; mkPos 2 0 VKeep] 2).
+Proof. vm_compute. split; reflexivity. Qed.
+
+(* the property's literal bound holds for the V2 borrow sweep in the quiet case *)
+Theorem blive_quiet_two_sweeps : forall b x ids off liq vfs,
+  1 <= b -> 0 <= off -> In x ids ->
+  Forall (fun vf => vf x = VSeize) vfs ->
+  two_sweeps (zlen ids) b <= zlen vfs ->
+  In x (bs_liq (fold_left (bev_step b) (bblocks_of vfs) (mkB ids off liq))).
+Proof.
+  intros b x ids off liq vfs Hb Ho Hx Hall Hn. apply blive_quiet; auto.
+  pose proof (idx_bounds x ids Hx). pose proof (live_R_le_two_sweeps (zlen ids) b ltac:(lia) Hb). lia.
+Qed.
